@@ -136,6 +136,8 @@ type World struct {
 	FromBondShort math.Int
 	// SnapSeen: selector -> last (reporter, time) whose stake snapshot included it (C10).
 	SnapSeen map[string]snapSeen
+	// Ledgers: dispute hash -> shadow settlement ledger (C13); copy-on-write.
+	Ledgers map[string]*famLedger
 }
 
 // BlockPhases are module balances sampled after EndBlocker and after BeginBlocker.
